@@ -20,7 +20,17 @@ CSTR = J("cstr", 20000, 1500000)
 
 WAKER = J("waker", 20000, 1500000)
 
-ALL_JOBS = [ARC, VEC, CSTR, WAKER]
+FEED = J("feed", 20000, 1500000)
+
+CBOX = J("cbox", 20000, 1500000)
+
+CP = {"SIM_CPARTY": "1"}
+C16_JOBS = []
+for _e in ("arc", "vec", "feed", "cbox"):
+    C16_JOBS.append(J(_e, 6000, 300000, release_in=(), env=CP, label=_e + "-cparty-debug"))
+    C16_JOBS.append(J(_e, 6000, 300000, release_in=("quick", "thorough"), env=CP, label=_e + "-cparty-release"))
+
+ALL_JOBS = [ARC, VEC, CSTR, WAKER, FEED, CBOX] + C16_JOBS
 
 PROPS = {
     "C10": {
@@ -46,6 +56,18 @@ PROPS = {
         "real": ["cglue::task (CRefWaker, CRawWaker, OpaqueRawWakerVtbl)", "generated Future/Stream/Sink glue (trait_obj!)", "tarc::BaseArc", "std::task::Wake"],
         "stub": ["polled value (the simulated plugin executes the plan's waker ops inside poll)", "counting Arc-based caller waker"],
         "assumptions": COMMON_ASSUMPTIONS + ["bounds do not prescribe how many clones of the caller's waker the implementation takes per handle: between 1 (while any handle lives) and one per live handle"],
+    },
+    "C15": {
+        "jobs": [FEED],
+        "real": ["cglue::callback (OpaqueCallback, Callback, FeedCallback, FromExtend, Callbackable, Extend impl)", "cglue::iter (CIterator, AsCIterator)"],
+        "stub": ["sources and sinks are simulator streams (ids, logged destructors, non-fused gaps, seeded stop position)", "C party transcribed from bindings.h"],
+        "assumptions": COMMON_ASSUMPTIONS,
+    },
+    "C16": {
+        "jobs": C16_JOBS,
+        "real": ["cglue::boxed, arc, vec, slice, callback, iter, option, result (layouts and the extern \"C\" functions stored in them)"],
+        "stub": ["the C party: #[repr(C)] view structs and operations transcribed from examples/pregen-headers/bindings.h and cglue-bindgen/src/types.rs", "foreign-manufactured values with the simulator's own functions"],
+        "assumptions": COMMON_ASSUMPTIONS + ["the transcription of the published header into view structs is faithful (it is short and reviewed against bindings.h)", "both debug and release builds of the harness are run"],
     },
 }
 
